@@ -112,6 +112,7 @@ func runC03(r *run) {
 	defer func() { os.Stdout, os.Stderr = realOut, realErr }()
 	slog.VerifResetGlobals()
 	_ = slog.RegisterLevel(slog.Level(40), "c03plain")
+	_ = slog.RegisterLevel(slog.Level(-8), "c03hint") // negative level numbers are legal; -3 stays unregistered
 	_ = slog.RegisterLevel(slog.Level(41), "c03err", slog.RegWithPrintToErrorDevice())
 	// the error device is a registration of its own: neither the treated-as level nor the order of the options decides it
 	_ = slog.RegisterLevel(slog.Level(42), "c03a", slog.RegWithPrintToErrorDevice(), slog.RegWithTreatedAsLevel(slog.InfoLevel))
@@ -129,7 +130,7 @@ func runC03(r *run) {
 	if r.tier == "thorough" {
 		n = 6000
 	}
-	probes := []int{4, 2, 3, 5, 40, 41, 9, 11, 8, 0, 7, 42, 43, 44, 45}
+	probes := []int{4, 2, 3, 5, 40, 41, 9, 11, 8, 0, 7, 42, 43, 44, 45, -8, -3}
 	lvls := []int{4, 2, 5, 41, 40, 42, 43}
 	for h := 0; h < n; h++ {
 		log := &evLog{}
